@@ -7,7 +7,12 @@ PROP = {
             ["harness/core/internal/frag/c05_test.go"], "^TestVerifC05",
             ["frag-split", "frag-reassemble", "frag-interleave"], race=False,
             timeout_quick=600, timeout_thorough=3600),
+        job("server-send", "core", "./server/", "server",
+            ["harness/core/server/c05_send_test.go"], "^TestVerifC05ServerSend$", ["server-send"]),
+        job("client-send", "core", "./client/", "client",
+            ["harness/core/client/c05_send_test.go"], "^TestVerifC05ClientSend$", ["client-send"]),
     ],
+    "parallel": 3,
     "min_events": 1000,
     "rule": ("split: boundary grid over (payload size, address length, datagram limit) incl. limit<=header, "
              "255/256/257 fragments, last fragment of 1 byte, plus PRNG points; each split message is sent "
@@ -15,7 +20,10 @@ PROP = {
              "duplicates. reassemble: all permutations (each also with a duplicate) for 2..5 fragments, random "
              "orders with duplicates and one-fragment-dropped runs for 6..255 fragments. interleave: 2..4 "
              "messages with distinct packet IDs, shuffled / locally swapped / round-robin arrival with drops "
-             "and duplicates into one Defragger. A case is non-trivial when the message was actually split "
+             "and duplicates into one Defragger. server-send / client-send: the real send paths "
+             "(sendMessageAutoFrag, udpConn.Send) against a fake IO answering DatagramTooLargeError with limits at/around "
+             "the header size, tiny budgets (>255 fragments) and realistic ones; whatever left must fit the limit and "
+             "reassemble (sent order and shuffled) to exactly the original, or nothing was delivered. A case is non-trivial when the message was actually split "
              "(>=2 fragments); distinct = distinct (sizes, arrival order)."),
     "assumptions": [
         "concurrent messages carry distinct packet IDs (precondition stated by the property)",
